@@ -35,6 +35,14 @@ def run_case(case):
         pots.append(Potential(p['A'], p['B'], f))
     out = io.StringIO()
     if case['route'] == 'class': LAMMPS_PairTabulation(pots, cutoff, nr).write(out)
+    elif case['route'] == 'class-reused':
+        # the same tabulation object written before and after the model changes (a potential appended to its list): every
+        # write reflects the model as it is then
+        plist = list(pots[:-1]) if len(pots) > 1 else [Potential('Q', 'Q', mk_callable(dict(kind='poly', coefs=[1.0, 2.0])))]
+        tab = LAMMPS_PairTabulation(plist, cutoff, nr)
+        tab.write(io.StringIO())
+        del plist[:]; plist.extend(pots)
+        tab.write(out)
     elif case['route'] == 'writePotentials': ap.writePotentials('LAMMPS', pots, cutoff, nr, out)
     else: raise ValueError(case['route'])
     return out.getvalue(), fs
@@ -72,7 +80,13 @@ def gen_case(rng):
     cutoff = rng.choice([1.0, 2.5, 6.5, 8.0, 9.0, 10.0, 12.0, round(rng.uniform(0.5, 15), 2)])
     npots = rng.randint(1, 3)
     pots = [dict(A=rng.choice(LABELS), B=rng.choice(LABELS), fn=rand_callable_spec(rng)) for _ in range(npots)]
-    return dict(route=rng.choice(['class', 'writePotentials']), cutoff=cutoff, nr=nr, pots=pots)
+    if rng.random() < 0.2:
+        # a dyadic grid (row separations exactly representable) and an energy function with a simple root on one of its rows
+        cutoff, nr = 8.0, rng.choice([17, 33, 65])
+        dr = cutoff / (nr - 1)
+        pots[0]['fn'] = root_on_grid_spec(rng, dr * rng.randint(1, nr - 2))
+    route = rng.choice(['class', 'writePotentials', 'class', 'class-reused'])
+    return dict(route=route, cutoff=cutoff, nr=nr, pots=pots)
 
 if __name__ == '__main__':
     pl = payload()
